@@ -147,6 +147,42 @@ pub fn step_once(real: &mut Real, m0: &M) -> Outcome {
     }
 }
 
+/// One step of a LIVE history: `pre` acts on the live state (the environment's and the program's pushes),
+/// then `push` (if any) is put on top of EXEC and one interpreter step is executed.
+pub struct LiveStep {
+    pub pre: Box<dyn Fn(&mut pushr::push::state::PushState)>,
+    pub push: Option<Tree>,
+}
+
+/// Executes a whole history on ONE live state object built once from `m0` (nothing is rebuilt in between,
+/// so whatever an operation leaves behind outside the observable state is still there for the next one) and
+/// observes the end. The families that explore state graphs step by step from rebuilt states compare this
+/// with the state their own chain of single steps arrived at.
+pub fn live_history(real: &mut Real, m0: &M, steps: &[LiveStep]) -> Outcome {
+    let Real { iset, icache } = real;
+    let r = guarded(|| {
+        let mut st = build(m0);
+        pushr::push::graph::verif_set_node_counter(crate::refmodel::next_node_id());
+        pushr::push::verif::install_clock(0);
+        for s in steps {
+            (s.pre)(&mut st);
+            if let Some(t) = &s.push {
+                st.exec_stack.push(crate::model::item_of(t));
+            }
+            pushr::push::verif::install_script(vec![], DRAW_HORIZON.load(std::sync::atomic::Ordering::Relaxed));
+            PushInterpreter::step(&mut st, iset, icache);
+        }
+        observe(&st)
+    });
+    pushr::push::verif::clear_script();
+    pushr::push::verif::clear_clock();
+    reap_children();
+    match r {
+        Ok(m) => Outcome::Ok(m),
+        Err(p) => Outcome::Panic(p),
+    }
+}
+
 /// `m0` with instruction `name` pushed on top of EXEC.
 pub fn with_instr(m0: &M, name: &str) -> M {
     let mut m = m0.clone();
@@ -264,6 +300,9 @@ pub struct Ctx {
     pub nshards: usize,
     /// replay mode: run only this case (and print everything about it)
     pub only: Option<u64>,
+    /// replay mode for history-dependent failures: execute every case this shard ran before `only` as well
+    /// (recording nothing about them), so that whatever they left behind in the process is there again
+    pub prefix: bool,
     /// resume after an aborted case: ids below this are skipped
     pub from: u64,
     pub next_id: u64,
@@ -297,6 +336,7 @@ impl Ctx {
             shard: 0,
             nshards: 1,
             only: None,
+            prefix: false,
             from: 0,
             next_id: 0,
             cases: 0,
@@ -326,7 +366,7 @@ impl Ctx {
         self.next_id += 1;
         match self.only {
             Some(o) => {
-                if o == id {
+                if o == id || (self.prefix && id < o && (id as usize) % self.nshards == self.shard) {
                     Some(id)
                 } else {
                     None
@@ -384,6 +424,9 @@ impl Ctx {
     }
 
     pub fn record(&mut self, id: u64, outcome_key: &str, verdict: Verdict, descr: impl FnOnce() -> String) {
+        if self.prefix && self.only.map(|o| o != id).unwrap_or(false) {
+            return; // a case executed only to restore the history of the replayed one
+        }
         self.cases += 1;
         self.traces += 1;
         let oh = h64(outcome_key);
